@@ -83,7 +83,13 @@ impl<'a> TreeGen<'a> {
             for _ in 0..n {
                 cls.push(*self.rng.pick(&CLASSES));
             }
-            e.attrs.push(("class".into(), cls.join(" ")));
+            // class names are separated by any run of ASCII whitespace
+            let sep = *self.rng.pick(&[" ", " ", " ", "  ", "\t", "\n", "\x0c", " \n   "]);
+            let mut v = cls.join(sep);
+            if self.rng.chance(1, 10) {
+                v = format!("{}{}{}", sep, v, sep);
+            }
+            e.attrs.push(("class".into(), v));
         }
         if self.rng.chance(1, 4) {
             e.attrs.push(("id".into(), self.rng.pick(&IDS).to_string()));
